@@ -251,7 +251,7 @@ func (r linkDestinationReplacer) scanInlineLinks(line []byte, lineStart int, src
 			continue
 		}
 
-		if len(linkStack) == 0 && c == '<' {
+		if c == '<' {
 			switch {
 			case i+3 < len(line) && line[i+1] == '!' && line[i+2] == '-' && line[i+3] == '-':
 				end := bytes.Index(line[i+4:], []byte("-->"))
@@ -289,10 +289,15 @@ func (r linkDestinationReplacer) scanInlineLinks(line []byte, lineStart int, src
 
 			tag, end, isClosing, isSelfClosing, ok := parseHTMLTag(line, i)
 			if ok {
-				if isClosing {
-					html.closeTag(tag)
-				} else if !isSelfClosing {
-					html.openTag(tag)
+				// The text of a tag, attribute values included, is never
+				// scanned for links. Inside a link text, elements are not
+				// tracked.
+				if len(linkStack) == 0 {
+					if isClosing {
+						html.closeTag(tag)
+					} else if !isSelfClosing {
+						html.openTag(tag)
+					}
 				}
 				i = end
 				continue
@@ -358,6 +363,11 @@ func parseHTMLTag(line []byte, pos int) (tag string, end int, isClosing bool, is
 		i++
 	}
 	tag = strings.ToLower(string(line[start:i]))
+	// A tag name is followed by a space, "/" or ">"; "<https://example.com>"
+	// is an autolink, not a tag.
+	if i < len(line) && line[i] != '>' && line[i] != '/' && !util.IsSpace(line[i]) {
+		return "", 0, false, false, false
+	}
 	for i < len(line) {
 		c := line[i]
 		if c == '"' || c == '\'' {
